@@ -17,6 +17,7 @@ package main
 
 import (
 	"go/token"
+	"go/types"
 	"strings"
 
 	"golang.org/x/tools/go/ssa"
@@ -39,6 +40,10 @@ type LoopForm struct {
 	Exit int
 	z    *Polyizer
 	save map[ssa.Value]Poly
+	// the range of T that was in force before this form (restored by Done)
+	saveTMax int64
+	saveTSet bool
+	setTMax  bool
 }
 
 // loopFormAt returns the induction form of the innermost loop containing b.
@@ -164,14 +169,113 @@ func (g *IG) loopFormAt(z *Polyizer, b *ssa.BasicBlock) (*LoopForm, bool) {
 		}
 		lf.Exit = g.Idx[ifi]
 	}
+	// a shifted mask that is tested against zero: K, K>>s, K>>2s, ... leaves the
+	// loop when no bit is left (for mask := 1<<63; mask > 0; mask >>= 1)
+	for blk := range body {
+		ifi, ok := blk.Instrs[len(blk.Instrs)-1].(*ssa.If)
+		if !ok || len(blk.Succs) != 2 || body[blk.Succs[0]] == body[blk.Succs[1]] {
+			continue
+		}
+		f, ok := condFact(ifi.Cond, body[blk.Succs[0]])
+		if !ok {
+			continue
+		}
+		var sv ssa.Value
+		switch {
+		case f.Y == nil && f.Op == token.NEQ:
+			sv = f.X
+		case f.Y != nil && (f.Op == token.NEQ || f.Op == token.GTR):
+			if k, isK := constUint64(f.Y); isK && k == 0 && isUnsignedInt(f.X.Type()) {
+				sv = f.X
+			}
+		}
+		if sv == nil {
+			continue
+		}
+		if n, ok := shiftTrips(lf, sv); ok {
+			tests = append(tests, g.Idx[ifi])
+			lf.Trips, lf.TripsOK = polyConst(n), true
+			lf.Exit = g.Idx[ifi]
+		}
+	}
 	if len(tests) != 1 {
 		lf.TripsOK = false // no test, or several tests of the induction variables
+	}
+	// T now counts this loop's iterations
+	lf.saveTMax, lf.saveTSet, lf.setTMax = z.tMax, z.tMaxSet, true
+	z.tMax, z.tMaxSet = 0, false
+	if n, isC := lf.Trips.isConst(); lf.TripsOK && isC && n > 0 {
+		z.tMax, z.tMaxSet = n-1, true
 	}
 	return lf, true
 }
 
+// shiftTrips: v is a header phi that starts at a constant and is shifted by a
+// constant in every iteration; the number of iterations after which it is zero.
+func shiftTrips(lf *LoopForm, v ssa.Value) (int64, bool) {
+	phi, ok := stripConv(v).(*ssa.Phi)
+	if !ok || phi.Block() != lf.Header || !isUnsignedInt(phi.Type()) {
+		return 0, false
+	}
+	w := intWidth(phi.Type())
+	if w <= 0 {
+		return 0, false
+	}
+	var init uint64
+	haveInit := false
+	var op token.Token
+	var sh uint64
+	for i, e := range phi.Edges {
+		if !lf.Body[lf.Header.Preds[i]] {
+			k, ok := constUint64(e)
+			if !ok || haveInit {
+				return 0, false
+			}
+			init, haveInit = k, true
+			continue
+		}
+		b, ok := stripConv(e).(*ssa.BinOp)
+		if !ok || stripConv(b.X) != ssa.Value(phi) || (b.Op != token.SHR && b.Op != token.SHL) {
+			return 0, false
+		}
+		k, ok := constUint64(b.Y)
+		if !ok || k == 0 || (op != 0 && (op != b.Op || sh != k)) {
+			return 0, false
+		}
+		op, sh = b.Op, k
+	}
+	if !haveInit || op == 0 {
+		return 0, false
+	}
+	mask := ^uint64(0)
+	if w < 64 {
+		mask = 1<<uint(w) - 1
+	}
+	cur := init & mask
+	n := int64(0)
+	for cur != 0 && n <= 64 {
+		if op == token.SHR {
+			cur >>= sh
+		} else {
+			cur = (cur << sh) & mask
+		}
+		n++
+	}
+	return n, cur == 0
+}
+
+func isUnsignedInt(t types.Type) bool {
+	b, ok := t.Underlying().(*types.Basic)
+	return ok && b.Info()&types.IsUnsigned != 0
+}
+
 // Done restores the polyizer's environment.
-func (lf *LoopForm) Done() { lf.z.env = lf.save }
+func (lf *LoopForm) Done() {
+	lf.z.env = lf.save
+	if lf.setTMax {
+		lf.z.tMax, lf.z.tMaxSet = lf.saveTMax, lf.saveTSet
+	}
+}
 
 // stepOf: e is phi + c or phi - c (through integer conversions).
 func stepOf(e ssa.Value, phi *ssa.Phi) (int64, bool) {
@@ -264,4 +368,56 @@ func (lf *LoopForm) tripValues(g *IG) []ssa.Value {
 	}
 	lf.z.env = env
 	return out
+}
+
+// sliceElem resolves the element x[idx] through re-slicings to an element of the
+// underlying slice: s[lo:][i] is s[lo+i], and a slice variable that a loop
+// advances by a constant (for c := s[a:]; ...; c = c[k:]) is s[a+k*T:] in
+// iteration T of that loop (lf may be nil outside loops).
+func sliceElem(z *Polyizer, lf *LoopForm, x ssa.Value, idx Poly) (ssa.Value, Poly) {
+	for depth := 0; depth < 8; depth++ {
+		switch s := x.(type) {
+		case *ssa.Slice:
+			if _, isSlice := s.X.Type().Underlying().(*types.Slice); !isSlice {
+				return x, idx
+			}
+			if s.Low != nil {
+				idx = idx.add(z.Of(s.Low), 1)
+			}
+			x = s.X
+			continue
+		case *ssa.Phi:
+			if lf == nil || s.Block() != lf.Header {
+				return x, idx
+			}
+			var init ssa.Value
+			step, okIV, nInit := int64(-1), true, 0
+			for i, e := range s.Edges {
+				if !lf.Body[lf.Header.Preds[i]] {
+					init = e
+					nInit++
+					continue
+				}
+				sl, ok := e.(*ssa.Slice)
+				if !ok || sl.X != ssa.Value(s) || sl.Low == nil {
+					okIV = false
+					break
+				}
+				k, ok := constInt64(sl.Low)
+				if !ok || k < 0 || (step >= 0 && step != k) {
+					okIV = false
+					break
+				}
+				step = k
+			}
+			if !okIV || nInit != 1 || step < 0 {
+				return x, idx
+			}
+			idx = idx.add(polyAtom(loopT).mul(polyConst(step)), 1)
+			x = init
+			continue
+		}
+		return x, idx
+	}
+	return x, idx
 }
